@@ -219,6 +219,12 @@ C04ObjLeafs ==
 C04LoopLeafs ==
     { ScopeS("A", << ObjectS("A", << Prop("n", RefS("A"), FALSE) >>, "map", FALSE) >>),
       ScopeS("A", << ObjectS("A", << Prop("n", RefS("B"), FALSE) >>, "map", FALSE), ObjectS("B", << Prop("n", RefS("A"), TRUE) >>, "map", FALSE) >>) }
+\* default expansion that refers back to its own object (reported by another builder): a defaulted property
+\* whose type is the object itself, and - struct-mapped - a member of the object's own type next to a default
+C04DefLoopLeafs ==
+    { ScopeS("A", << ObjectS("A", << PropS("n", RefS("A"), FALSE, <<>>, <<>>, <<>>, Some(M("string_any", <<>>)), FALSE, FALSE) >>, "map", FALSE) >>),
+      ScopeS("A", << ObjectS("A", << PropS("a", IntS(None, None, None), FALSE, <<>>, <<>>, <<>>, Some(F64(2)), FALSE, FALSE),
+                                     Prop("x", RefS("A"), FALSE) >>, "ptrs", FALSE) >>) }
 C04LoopValues == { Str("a"), L("any", <<I64(1)>>), M("any_any", <<>>), M("any_any", << <<Str("n"), Nil>> >>),
                    M("string_any", << <<Str("n"), M("any_any", << <<Str("n"), M("any_any", <<>>)>> >>)>> >>) }
 C04Leafs ==
@@ -496,6 +502,8 @@ InitC04 ==
     \/ \E leaf \in C04LoopLeafs : \E x \in C04LoopValues :
           \E p \in { <<leaf, x>>, <<ListS(leaf, None, None, FALSE), L("any", <<x>>)>> } :
               \E op \in {"unser", "compat", "valid", "ser"} : vec = Vec(p[1], op, p[2])
+    \/ \E leaf \in C04DefLoopLeafs : \E x \in { M("any_any", <<>>), M("string_any", << <<Str("a"), I64(1)>> >>) } :
+          \E op \in {"unser", "compat"} : vec = Vec(leaf, op, x)
 
 DisSet == IF Deep THEN BOOLEAN ELSE {FALSE}
 C03Objects ==
